@@ -464,12 +464,6 @@ func (s *segment[T, O]) snapshotOpen(dst string, idx *seriesIndex) (bool, error)
 		return false, errors.Wrapf(err, "failed to snapshot metadata for segment %s", segDir)
 	}
 
-	indexPath := filepath.Join(segPath, seriesIndexDirName)
-	s.lfs.MkdirIfNotExist(indexPath, DirPerm)
-	if err := idx.store.TakeFileSnapshot(indexPath); err != nil {
-		return false, errors.Wrapf(err, "failed to snapshot index for segment %s", segDir)
-	}
-
 	sLst := s.sLst.Load()
 	if sLst != nil {
 		for _, shard := range *sLst {
@@ -485,6 +479,17 @@ func (s *segment[T, O]) snapshotOpen(dst string, idx *seriesIndex) (bool, error)
 				return false, errors.Wrapf(err, "failed to snapshot shard %s in segment %s", shardDir, segDir)
 			}
 		}
+	}
+
+	// The series index is copied AFTER the shards: series documents are written
+	// at ingestion time, so an index copy that is newer than the shard copies
+	// knows every series of every copied part. Copying it first would let a
+	// batch flushed in between land in a shard copy with series the index copy
+	// has never seen, hiding those rows in the restored database.
+	indexPath := filepath.Join(segPath, seriesIndexDirName)
+	s.lfs.MkdirIfNotExist(indexPath, DirPerm)
+	if err := idx.store.TakeFileSnapshot(indexPath); err != nil {
+		return false, errors.Wrapf(err, "failed to snapshot index for segment %s", segDir)
 	}
 	return true, nil
 }
